@@ -1,19 +1,19 @@
-use mithril_common::crypto_helper::{MKMap, MKMapNode, MKTree, MKTreeNode, MKTreeStoreInMemory};
-use mithril_common::entities::BlockRange;
+use mithril_stm::{Initializer, KeyRegistration, Parameters, VerificationKeyProofOfPossessionForConcatenation};
 fn main() {
-    let leaves: Vec<MKTreeNode> = (0..5).map(|i| format!("leaf-{i}").into()).collect();
-    let t = MKTree::<MKTreeStoreInMemory>::new(&leaves).unwrap();
-    let p = t.compute_proof(&leaves[1..3]).unwrap();
-    println!("MKPROOF {}", serde_json::to_string(&p).unwrap());
-    let entries: Vec<(BlockRange, MKMapNode<BlockRange, MKTreeStoreInMemory>)> = (0..3u64)
-        .map(|r| {
-            let ls: Vec<MKTreeNode> = (0..3).map(|i| format!("r{r}-leaf-{i}").into()).collect();
-            (BlockRange::from_block_number(mithril_common::entities::BlockNumber(r * 15)), MKTree::<MKTreeStoreInMemory>::new(&ls).unwrap().into())
-        })
-        .collect();
-    let m = MKMap::<_, _, MKTreeStoreInMemory>::new(&entries).unwrap();
-    let q: Vec<MKTreeNode> = vec!["r0-leaf-1".into(), "r2-leaf-0".into()];
-    let mp = m.compute_proof(&q).unwrap();
-    println!("MKMAPPROOF {}", serde_json::to_string(&mp).unwrap());
-    println!("root {}", m.compute_root().unwrap().to_hex());
+    let mut rng = vh_core::rng(1, 1);
+    let params = Parameters { m: 6, k: 2, phi_f: 0.8 };
+    let p = Initializer::new(params, 5, &mut rng);
+    let vkpop = p.get_verification_key_proof_of_possession_for_concatenation();
+    let mut j = serde_json::to_value(&vkpop).unwrap();
+    println!("{}", j.to_string().chars().take(300).collect::<String>());
+    for (f, i) in [("vk", 0), ("pop", 0), ("pop", 48)] { let b = j[f][i].as_u64().unwrap(); j[f][i] = serde_json::json!(b ^ 0x20); }
+    let neg: Result<VerificationKeyProofOfPossessionForConcatenation, _> = serde_json::from_value(j);
+    match neg {
+        Ok(n) => {
+            let mut reg = KeyRegistration::initialize();
+            println!("orig {:?}", reg.register(5, &vkpop).is_ok());
+            println!("neg  {:?}", reg.register(5, &n).map_err(|e| format!("{e:#}")));
+        }
+        Err(e) => println!("decode failed {e}"),
+    }
 }
